@@ -239,7 +239,7 @@ theorem recv_first_bad (p : Proto W I) (b : UInt8) (d : Bytes) (h1 : p.crashed =
 
 theorem recv_first_nul (p : Proto W I) (d : Bytes) (h1 : p.crashed = false)
     (h2 : p.authenticated = false) (h3 : p.firstByte = true) :
-    recv S p (0 :: d) = recvLines S { p with firstByte := false } d := by
+    recv S p (0 :: d) = recvLines S p.dropFirst d := by
   simp [recv, h1, h2, h3]
 
 theorem recv_lines (p : Proto W I) (d : Bytes) (h1 : p.crashed = false)
@@ -265,7 +265,7 @@ theorem recv_dead (p : Proto W I) (d : Bytes) (hd : d ≠ []) (h : p.dead) :
         by_cases hb : b = 0
         · subst hb
           rw [recv_first_nul S p d' hcr h2 hf]
-          have := recvLines_dead S { p with firstByte := false } d' hc
+          have := recvLines_dead S p.dropFirst d' hc
           exact ⟨⟨Or.inl this.2.1, this.2.2.1.trans h2⟩, this.1⟩
         · rw [recv_first_bad S p b d' hcr h2 hf hb]
           exact ⟨⟨Or.inl rfl, h2⟩, close_obs_of_closed _ hc⟩
@@ -402,7 +402,7 @@ theorem recv_merge (p : Proto W I) (a b : Bytes) (ha : a ≠ []) (hb : b ≠ [])
           by_cases hx : x = 0
           · subst hx
             rw [List.cons_append, recv_first_nul S p a' h1 h2 h3, recv_first_nul S p (a' ++ b) h1 h2 h3]
-            exact merge_lines S { p with firstByte := false } a' b hb h1 h2 rfl
+            exact merge_lines S p.dropFirst a' b hb h1 h2 rfl
           · rw [List.cons_append, recv_first_bad S p x a' h1 h2 h3 hx, recv_first_bad S p x (a' ++ b) h1 h2 h3 hx]
             have hd : p.close.dead := ⟨Or.inl rfl, h2⟩
             have := recv_dead S p.close b hb hd
